@@ -158,7 +158,7 @@ pub fn layouts() -> Vec<Layout> {
     vec![l1, l2, l3]
 }
 
-fn owners_of(sem: Sem) -> Vec<&'static str> {
+pub fn owners_of(sem: Sem) -> Vec<&'static str> {
     let mut o: Vec<&'static str> = Vec::new();
     let mem_mode = |m: Mode| !matches!(m, Mode::Reg | Mode::Imm);
     match sem {
@@ -350,6 +350,10 @@ pub fn alphabet(isa: &Isa, l: &Layout) -> Vec<Sym> {
     out
 }
 
+pub fn init_case_pub(l: &Layout) -> Case {
+    init_case(l)
+}
+
 fn init_case(l: &Layout) -> Case {
     let mut init = Case::new(l.p0, &[]);
     init.code_len = 0;
@@ -485,6 +489,39 @@ pub fn units(prop: &'static str, tier: Tier) -> Vec<Unit> {
                 ctx.track_queue = false;
                 ctx.cycles_only = false;
                 ctx.closed_form_cost = false;
+            }));
+        }
+    }
+    // ---- log level independence: the same sequences with trace logging switched on and every log argument evaluated
+    //      (under the real binary `--log trace` evaluates them; an instruction must not behave differently then)
+    {
+        let l = ls[0].clone();
+        let sigma = alphabet(&isa, &l);
+        let victims: Vec<usize> = sigma.iter().enumerate().filter(|(_, s)| s.owners.contains(&prop)).map(|(i, _)| i).collect();
+        if !victims.is_empty() {
+            let ns = sigma.len() as u64;
+            let dom = format!("layout L1 with trace logging on and every log argument evaluated by a formatting logger: every sequence of <= 2 symbols ending in one of this property's {} forms ({} sequences)", victims.len(), (ns + 1) * victims.len() as u64);
+            units.push(Unit::new("xseq/trace-logging", 16, &dom, move |ctx, chunk| {
+                crate::hv::panics::eval_log_args(true);
+                ctx.track_queue = true;
+                ctx.cycles_only = prop == "C20";
+                let init = init_case(&l);
+                if chunk == 0 {
+                    for &b in victims.iter() {
+                        run_symbols(ctx, &l, &init, &[&sigma[b]]);
+                    }
+                }
+                for (ai, a) in sigma.iter().enumerate() {
+                    if ai as u64 % 16 != chunk {
+                        continue;
+                    }
+                    for &b in victims.iter() {
+                        run_symbols(ctx, &l, &init, &[a, &sigma[b]]);
+                    }
+                }
+                ctx.track_queue = false;
+                ctx.cycles_only = false;
+                crate::hv::panics::eval_log_args(false);
             }));
         }
     }
